@@ -30,7 +30,7 @@ def builtin_len(x):
 
 def builtin_isnan(x):
     import numpy as np
-    return np.isnan(x)
+    return np.isnan(x).any()
 
 
 def builtin_norm_1(x):
